@@ -14,9 +14,9 @@ CLAIMED = {
                      'shortest input and that all inputs are consumed. The model is tied to the Go code by running both on the same cases '
                      '(outputs and per-input consumption) and the slice oracle is evaluated independently on the Go output.',
                 design='§6 C16', note=NOTE_COMMON + ' Sequential-goroutine reading of a helper (its result as a function of complete input streams) relies on Kahn determinism, examined under C03.'),
-    'C17': dict(level='proof', technique='Lean 4 refinement proof (ring -> bounded FIFO, tree -> multiset) over all operation histories + differential correspondence',
+    'C17': dict(level='proof', technique='Lean 4 refinement proofs (ring -> bounded FIFO, search tree -> sorted list/multiset) over all operation histories + differential correspondence',
                 text='The ring model mirrors buffer/begin/end/empty; Lean proves a representation invariant and that every operation history '
-                     'produces exactly the observations of a bounded FIFO, for all capacities >= 1. The tree model mirrors the pointer algorithm. '
+                     'produces exactly the observations of a bounded FIFO, for all capacities >= 1. The tree model mirrors the pointer algorithm and is proved, for a lawful order, to give the observations of a sorted list for every history of insert/remove/contains/min/max. '
                      'Both are tied to the Go code by random histories over every element type (including extremes and duplicates), comparing every '
                      'observation and (thorough) the tree shape.',
                 design='§6 C17', note=NOTE_COMMON + ' Element order assumed linear (NaN excluded).'),
@@ -27,7 +27,7 @@ CLAIMED.update({
                 text='Each of the 61 Compute bodies is a Lean term whose list semantics is executed against the Go code on generated configurations and series '
                      '(bit-for-bit agreement expected); the documented formula of each indicator is a second, independent Lean definition by position (no Skip/Shift), '
                      'evaluated on the same inputs and compared with the Go output. Theorems: generic soundness of the positional semantics (Sig.sound) and per-indicator '
-                     'alignment; formula-equality theorems are added indicator by indicator (listed in the evidence); where none exists yet the indicator is '
+                     'alignment; formula-equality theorems exist for 47 indicators (listed in the evidence; incl. sliding-tree extrema, ring-based WMA/std, all moving-average kinds); Kama, Po, SuperTrend, Mfi, Nvi are '
                      'covered by correspondence + formula oracle only. Known deviations (Apo, Dema, Emv, Fi, Obv, UlcerIndex, Aroon, Tsi) are recorded findings.',
                 design='§6 C01', note=NOTE_COMMON + ' The formulas in Spec/Indicators.lean are my reading of the doc comments; theorems are over the reals, rounding is bounded by a 1e-9 tolerance comparison.'),
     'C02': dict(level='proof', technique='Lean 4 proof: alignment typing of every Compute body (77 theorems, all admissible periods) + generic soundness theorem; correspondence on lengths',
